@@ -324,5 +324,10 @@ def _describe(prob, x, lam, res, info):
         if Z.shape[1]:
             Hr = Z.T @ info['HL'][np.ix_(F, F)] @ Z
             unique = bool(np.min(np.linalg.eigvalsh(0.5 * (Hr + Hr.T))) > 1e-8 * sc)
-    return dict(x=x, lam=lam, kkt=res, unique=unique, active_cons=act, active_bounds=int(np.sum(at_b)),
-                f=float(info['vals'][0]))
+    # 'balanced': at every free variable the objective gradient is non-zero, i.e. it is held in place by the
+    # opposing pull of an active constraint.  MMA approximations are (nearly) monotone in each variable, so a
+    # free variable at which the objective alone is stationary is approached only up to the smallest asymptote
+    # interval (2-cycle); Svanberg's convergence discussion covers the balanced situation only.
+    balanced = bool(np.all(np.abs(info['grads'][0][F]) > 1e-6 * sc)) if len(F) else True
+    return dict(x=x, lam=lam, kkt=res, unique=unique, balanced=balanced, active_cons=act,
+                active_bounds=int(np.sum(at_b)), f=float(info['vals'][0]))
